@@ -195,7 +195,12 @@ def open_rule(ctx, R1):
         ctx.require(R1, flags.get("truncate") is True or flags.get("create_new") is True, "%s:%s" % (b.file, b.line),
                     "%s: opened with truncate(true) or create_new(true) — older, longer content cannot survive (%s)" % (who, flags), [WF, "open-without-truncate", ft, str(exists)])
         ctx.require(R1, flags.get("append") is not True, "%s:%s" % (b.file, b.line), "%s: never opened in append mode" % who, [WF, "append", ft, str(exists)])
-        ctx.require(R1, "PATH" in str(ev[i_open][1]), "%s:%s" % (b.file, b.line), "%s: the opened path is the storage path of get_file_full_path (%s)" % (who, ev[i_open][1]), [WF, "path", ft, str(exists)])
+        # the path opened: the storage path helper's result (answered `PATH` by the trace model) or, when that helper was folded into
+        # other code, a path evaluated from the file manager's directory for this file type
+        want_dir = "FM.account_directory" if ft == "Account" else "FM.crt_directory"
+        opened = str(ev[i_open][1])
+        ctx.require(R1, "PATH" in opened or (want_dir in opened and ("FM.account_directory" if ft != "Account" else "FM.crt_directory") not in opened), "%s:%s" % (b.file, b.line),
+                    "%s: the opened path is the storage path of this file type (%s)" % (who, ev[i_open][1]), [WF, "path", ft, str(exists)])
         i_w = index_of(ev, lambda e: e[0] == "write_all", i_open)
         ctx.require(R1, i_w > i_open and "DATA" in str(ev[i_w][1]), "%s:%s" % (b.file, b.line), "%s: the data parameter is written after the open" % who, [WF, "write-after-open", ft, str(exists)])
     # no append(true) anywhere in the function (any path)
